@@ -310,7 +310,18 @@ impl<'a, 'b> TagBlock<'a, 'b> {
             return Ok(None);
         }
 
-        let element = self.iter.next().expect("File shouldn't end before EOI.");
+        // The iterator may already be exhausted: a nested block that failed to find its end tag
+        // consumes everything up to EOI, and its error may have been ignored (`{% comment %}`).
+        let element = match self.iter.next() {
+            Some(element) => element,
+            None => {
+                return Error::with_msg(format!(
+                    "Unclosed block. {{% {} %}} tag expected.",
+                    self.end_tag
+                ))
+                .into_err();
+            }
+        };
 
         if element.as_rule() == Rule::EOI {
             return error_from_pair(
